@@ -218,9 +218,18 @@ func coerceECDSAToSecp256k1(pubKey crypto.PubKey) (crypto.PubKey, error) {
 		return nil, errors.New("failed to assert type for secp256k1 coersion")
 	}
 
-	ecdsaPubBytes := append([]byte{0x04}, append(ecdsaPub.X.Bytes(), ecdsaPub.Y.Bytes()...)...)
+	// uncompressed SEC1 point: both coordinates are left-padded to 32 bytes
+	// (big.Int.Bytes drops leading zero bytes)
+	if ecdsaPub.X.BitLen() > 256 || ecdsaPub.Y.BitLen() > 256 {
+		return nil, errors.New("invalid secp256k1 public key coordinates")
+	}
 
-	secp256k1Pub, err := secp256k1.ParsePubKey(ecdsaPubBytes)
+	var ecdsaPubBytes [65]byte
+	ecdsaPubBytes[0] = 0x04
+	ecdsaPub.X.FillBytes(ecdsaPubBytes[1:33])
+	ecdsaPub.Y.FillBytes(ecdsaPubBytes[33:65])
+
+	secp256k1Pub, err := secp256k1.ParsePubKey(ecdsaPubBytes[:])
 	if err != nil {
 		return nil, err
 	}
